@@ -1,7 +1,7 @@
 #!/bin/bash
 # dev helper: extract facts of every stored benign seed (or the named ones) into .work/facts-<id>
 cd /verif
-for id in ${@:-$(ls seeded | grep -E -- '-[rstu]$')}; do
+for id in ${@:-$(ls seeded | grep -E -- '-[rstuv]$')}; do
   [ -f .work/facts-$id/push.json ] && continue
   rm -rf /tmp/scr-$id; mkdir -p /tmp/scr-$id && flock /tmp/uec-repo.lock rsync -a --exclude target --exclude .git /repo/ /tmp/scr-$id/ && (cd /tmp/scr-$id && patch -p1 -s < /verif/seeded/$id/patch.diff && find packages/ec-macros packages/push-macros -type f -exec touch {} +) && UEC_REPO=/tmp/scr-$id ./extract.sh .work/facts-$id >/dev/null && echo "extracted $id"
   rm -rf /tmp/scr-$id
